@@ -161,6 +161,15 @@ func c06Check(c c06Case) *kit.Verdict {
 			}
 		}
 	}
+	// records are printed later, by another goroutine: whatever was emitted for frame i must still describe frame i
+	// after all later frames have been processed (nothing in a record may alias memory the processor reuses)
+	for i, fr := range c.Frames {
+		for _, r := range rc.recs[i] {
+			if err := c06Allowed(c.Proc, c.VPN && c.Proc != "arp", fr, r); err != nil {
+				return v.Failf("frame %d (%s): its record changed after later frames were processed: %v\nframe %x", i, c.desc(i), err, fr)
+			}
+		}
+	}
 	if nrec > 0 {
 		v.Label("with-records")
 	}
@@ -299,5 +308,19 @@ func FuzzC06ARP(f *testing.F) {
 	}
 	f.Fuzz(func(t *testing.T, data []byte) {
 		c06FuzzOne(t, "arp", false, eth[len(eth)-7], data)
+	})
+}
+
+// engine level: the whole command on the virtual wire under a burst of replies, each followed by a runt of itself -
+// every frame processed by the real receive path (receiver goroutines, result hand-off, logger) exactly as in a scan.
+func TestC06Burst(t *testing.T) {
+	kit.Run(t, kit.Spec[c03BurstCase]{
+		Prop: "C06",
+		Rule: "arp / icmp / tcp fin / tcp syn commands on the virtual wire: 500..6000 distinct reply frames (ICMP types/codes, TTLs, ports, MACs varying frame by frame), each followed by a runt (the same frame cut inside its network or transport header), arrive in one burst; stdout consumer slow for 200 ms. Oracle: the multiset of printed records equals one record per complete frame with exactly that frame's fields (independent decoder) - no record for a runt, none mixing fields of two frames, none lost or doubled. non-trivial: > 2000 replies; distinct by case",
+		Gen: func(t *rapid.T) c03BurstCase {
+			return c03BurstCase{Cmd: rapid.SampledFrom([]string{"arp", "icmp", "icmp", "tcp fin", "tcp syn"}).Draw(t, "cmd"), Replies: rapid.SampledFrom([]int{500, 2100, 3000, 6000}).Draw(t, "replies"),
+				SlowUs: rapid.SampledFrom([]int{50, 120}).Draw(t, "slow"), Seed: rapid.Int64().Draw(t, "seed"), Runts: true}
+		},
+		Check: c03BurstCheck,
 	})
 }
